@@ -14,7 +14,7 @@ RULE = ('write/writeln(int): every 16-bit value exhaustively (batches passed as 
         'source; write(byte) all 256 values; write(string)/write(byte array) with lengths 0..64 and arbitrary byte '
         'contents in every storage form (const global, hoisted literal, stack literal, mutable local, byte a[n], '
         'parameter R/RC/RW, argv array, string->const byte[] conversion, argv string), also placed around and above address '
-        '0x8000 of the const and state sections at 16 bit; each call site placed between '
+        '0x8000 of the const and state sections at 16 bit, and next to numerically equal bool / int / string constants used before or after the call; each call site placed between '
         'canaries (int/byte/bool locals, a byte array, an int array) and run at a generous stack and at the minimal '
         'stack size S_min found by binary search. Oracle: Python str(int) / exact bytes / canaries unchanged. '
         'Non-trivial: ints whose digit count differs from a neighbour (v-1 or v+1), 0, -1, MIN, MAX; arrays of length '
@@ -219,12 +219,23 @@ def form_source(form, data, ln, pad=None):
     else:
         raise AssertionError(form)
     first = ''
+    after = ''
+    if pad is not None and pad[0] == 'sibling':
+        # constants of other element types that are numerically equal to the data (bools for 0/1 bytes, ints, a string with the
+        # same bytes) live in the same program, used before or after the call: write(byte array) must not pick up their storage
+        sib = ('const bool[] sbl = [%s]; const int[] sil = [%s]; string sst = %s; ' % (
+            ', '.join('true' if b else 'false' for b in data), ', '.join(str(b) for b in data), src_string(data)) +
+            'for (int k = 0; k < sbl.length; k += 1) { write(sbl[k]); write(sil[k]); } write(sst);')
+        if pad[1] == 'before':
+            first = sib
+        else:
+            after = sib
     if pad is not None and pad[0] == 'const':
         # a long string constant used first pushes every later constant up in the const section
         glob = 'string padS = "%s";\n' % ('x' * pad[1]) + glob
         first = 'if (padS.length == 0) { write(padS); }'
-    src = '%s\n%s\nempty @is_you(%s) {\n  %s\n  %s\n  %s\n  write(\'<\'); %s write(\'>\');\n  %s\n}\n' % (
-        glob, helpers, sig, first, CANARY_DECL, setup, call, CANARY_PRINT)
+    src = '%s\n%s\nempty @is_you(%s) {\n  %s\n  %s\n  %s\n  write(\'<\'); %s write(\'>\');\n  %s\n  %s\n}\n' % (
+        glob, helpers, sig, first, CANARY_DECL, setup, call, after, CANARY_PRINT)
     return src, args
 
 
@@ -237,6 +248,9 @@ FORMS = ['const_global', 'mut_global', 'hoisted_literal', 'stack_literal', 'cons
 def check_bytes_case(stats, form, data, ln, ws, tight, pad=None):
     src, args = form_source(form, data, ln, pad)
     exp = b'<' + bytes(data) + (b'\n' if ln else b'') + b'>' + CANARY_OUT
+    if pad is not None and pad[0] == 'sibling':
+        sib_out = b''.join((b'true' if b else b'false') + str(b).encode() for b in data) + bytes(data)
+        exp = (sib_out + exp) if pad[1] == 'before' else (b'<' + bytes(data) + (b'\n' if ln else b'') + b'>' + sib_out + CANARY_OUT)
     sizes = [S0 if pad is None or pad[0] != 'stack' else pad[1]]
     if pad is not None:
         stats.cls('placement_' + pad[0])
@@ -332,6 +346,7 @@ def shards(tier):
         out.append(('int_site', k))
     out.append(('placement', 0))
     out.append(('placement', 1))
+    out.append(('siblings', 0))
     return out
 
 
@@ -423,6 +438,28 @@ def run_shard(desc, seed, tier):
 
         search(strat, chk, seed=derive_seed(seed, 'C17', kind, k), max_examples=50 if tier == 'quick' else 300,
                stats=stats, to_case=lambda v, m: {'kind': 'bytes', 'value': list(v), 'message': m})
+        return stats
+    if kind == 'siblings':
+        import random
+        rnd = random.Random(repr((seed, k)))
+        forms = [f for f in FORMS if not f.startswith('argv')]
+        for form in forms:
+            for n in (2, 3, 8, 9):
+                for order in ('before', 'after'):
+                    # 0/1 data (numerically equal to a bool array), small values, arbitrary bytes
+                    for data in ([rnd.randint(0, 1) for _ in range(n)], [1] * n, [rnd.randint(1, 255) for _ in range(n)]):
+                        if form.startswith('string') or form == 'vla':
+                            data = [b or 1 for b in data] if form.startswith('string') else data
+                        ws_ = rnd.choice([2, 4])
+                        try:
+                            r = check_bytes_case(stats, form, data, False, ws_, False, ('sibling', order))
+                        except Discard:
+                            continue
+                        if r:
+                            stats.violation({'kind': 'bytes_placed', 'value': [form, data, False, ws_, False, ['sibling', order]], 'message': r[1],
+                                             'signature': r[0] + ':sibling'})
+        stats.exhaustive = True
+        stats.sample({'kind': 'siblings', 'forms': forms, 'note': 'numerically equal bool/int/string constants in the same program'})
         return stats
     if kind == 'placement':
         # 16-bit only: data placed around and above the middle of the address space (0x8000), in the const
